@@ -902,6 +902,7 @@ func Run(r *mc.Run) {
 		}
 	}()
 	addBestScenario(r)
+	addKnobScenario(r)
 	// the same entry points called at the same time on independent inputs: every schedule of small thread programs (instrumented build)
 	sched.Explore(r, "concurrent-calls", ConcurrentPrograms())
 
@@ -923,6 +924,13 @@ func Run(r *mc.Run) {
 func Replay(scenario string, raw json.RawMessage) []*mc.Violation {
 	if scenario == "concurrent-calls" {
 		return sched.Replay(scenario, ConcurrentPrograms(), raw)
+	}
+	if scenario == "deb-control-after-decoder-settings" {
+		var k KnobIn
+		if mc.UnmarshalInput(raw, &k) == nil && kindByName(k.Doc.Kind) != nil {
+			return checkKnob(scenario, k)
+		}
+		return nil
 	}
 	if scenario == "best-checksums-accessor-histories" {
 		var in BestIn
